@@ -47,13 +47,13 @@ PAR_DRIVER = r'''#!/usr/bin/env python3
 # cases, the model is evaluated once) and the misses are spread over several driver processes
 import hashlib, os, subprocess, sys
 DRV, CACHE, JOBS = sys.argv[1], sys.argv[2], int(sys.argv[3])
-cases = sys.stdin.read().split("\\n")
+cases = sys.stdin.read().split("\n")
 if cases and cases[-1] == "":
     cases.pop()
 known = {}
 if os.path.exists(CACHE):
     for l in open(CACHE, errors="replace"):
-        k, _, v = l.rstrip("\\n").partition(" ")
+        k, _, v = l.rstrip("\n").partition(" ")
         known[k] = v
 keys = [hashlib.sha1(c.encode()).hexdigest() for c in cases]
 miss = [i for i, k in enumerate(keys) if k not in known]
@@ -67,8 +67,8 @@ for ch in chunks:
 import threading
 outs = {}
 def feed(ch, p):
-    o, _ = p.communicate("\\n".join(cases[i] for i in ch) + "\\n")
-    outs[id(p)] = o.split("\\n")
+    o, _ = p.communicate("\n".join(cases[i] for i in ch) + "\n")
+    outs[id(p)] = o.split("\n")
 ths = [threading.Thread(target=feed, args=(ch, p)) for ch, p in procs]
 for t in ths: t.start()
 for t in ths: t.join()
@@ -83,10 +83,10 @@ with open(CACHE, "a") as f:
             continue
         for i, r in zip(ch, res):
             known[keys[i]] = r
-            f.write(keys[i] + " " + r + "\\n")
+            f.write(keys[i] + " " + r + "\n")
 if bad:
     sys.exit(3)
-sys.stdout.write("".join(known[k] + "\\n" for k in keys))
+sys.stdout.write("".join(known[k] + "\n" for k in keys))
 '''
 
 
@@ -98,7 +98,7 @@ def run(ctx):
                 "aborts are attributed to their case) on structure-aware mutations of valid proofs of AIR-family members (f64/f128, Blake3-256/"
                 "Blake3-192/Rp64_256/Sha3-256, base/quadratic/cubic, 0/1/several FRI layers, with/without auxiliary segment): every length/count/"
                 "size field set to 0,1,2,max-1,max,orig+-1,2*orig,..., every byte value of every options/trace-info field, counts inside Merkle "
-                "path blobs, components resized consistently (prefix rewritten), nuq+tables, layers added/removed, Lagrange frames, OOD frame "
+                "path blobs, components resized consistently (prefix rewritten), nuq+tables, layers added/removed, trace metadata (valid proofs with metadata; contexts re-serialised with metadata of lengths 0..3*EB and 65535 filled with 00/FF/modulus/modulus+-1/random at every alignment), Lagrange frames, OOD frame "
                 "sizes, gkr lengths up to 2^60, foreign modulus, metadata, truncation, trailing bytes, single-bit/byte changes (exhaustive on the "
                 "smallest proof in thorough), perturbed public inputs; model answers a SET (one run per first failing value-dependent check and per "
                 "position-count mismatch): impl must be in it, and an impl panic requires an all-panic set.  O/Q/F/C/D = the typed parsers and "
@@ -150,6 +150,13 @@ def run(ctx):
         rc, out, _ = vcheck.sh([rel, "gen", str(ctx.seed), corpus, ctx.tier], timeout=900)
         nproofs = sum(1 for _ in open(corpus)) if os.path.exists(corpus) else 0
         ctx.ob("corpus:valid-proofs", rc == 0 and nproofs >= 20, out[-300:])
+        # valid proofs whose context carries trace metadata (bytes 4..6 of the proof: u16 metadata length)
+        with_meta = 0
+        if os.path.exists(corpus):
+            for l in open(corpus):
+                h = l.rstrip("\n").split(" ")[-1]
+                with_meta += 1 if h[8:12] not in ("0000", "") else 0
+        ctx.ob("corpus:proofs-with-metadata", with_meta >= 3, f"{with_meta} valid proofs carry trace metadata")
         ctx.notes["corpus"] = out.strip()[-400:]
     n = 600 if quick else 40000
     if os.environ.get("C06_N"):
